@@ -611,6 +611,11 @@ class Peer:
                 new_routes = None
                 include_withdraw = True
                 self.neighbor.rib.outgoing.fire_flush_callbacks()
+        else:
+            # nothing is queued for this peer: a sync mode API command which changed nothing here (the route is
+            # already announced, its family is not configured for this neighbor) must not wait for a flush which
+            # will never come - it was never answered and, awaited by the main loop, stopped the API for good
+            self.neighbor.rib.outgoing.fire_flush_callbacks()
 
         return (new_routes, include_withdraw)
 
